@@ -107,21 +107,6 @@ three-valued negamax class at every depth); on a domain: `Search.HashOKOn`.
   depend on the ply counter, so beyond ply 2·10^6 two `Equal` positions need not have evaluations of the same class
   (C18 `terminal_beyond_bound`), and a move-closed domain cannot bound the ply; for them the `_partial` forms apply. -/
 
-/-- the good positions that satisfy `D` (a set closed under applied moves: `DomClosed`) -/
-def TakDom (basis : Array W) (D : Pos → Prop) (q : Pos) : Prop := InvB basis q ∧ D q
-
-/-- equal hashes ⇒ alike for the search's verdicts, among the good positions satisfying `D` -/
-def TakHashOK (basis : Array W) (ev : Pos → Int) (sym : Pos → List H) (D : Pos → Prop) : Prop :=
-  HashOKOn (takGame basis ev sym) (TakDom basis D)
-
-theorem takS_none_iff (basis : Array W) (D : Pos → Prop) (k : Nat) (q : Pos) :
-    takS basis D none k q ↔ TakDom basis D q :=
-  ⟨fun h => ⟨h.1, h.2.1⟩, fun h => ⟨h.1, h.2, fun n hn => by cases hn⟩⟩
-
-theorem takHashOK_dom {basis : Array W} {ev : Pos → Int} {sym : Pos → List H} {D : Pos → Prop}
-    (h : TakHashOK basis ev sym D) : HashOKOn (takGame basis ev sym) (takS basis D none 0) :=
-  fun p q hp hq => h p q ((takS_none_iff basis D 0 p).mp hp) ((takS_none_iff basis D 0 q).mp hq)
-
 /-- **`verdict_sound` on Tak** (partial: the semantic `TakHashOK` instead of a hypothesis about hashes alone): any history of `Analyze` calls on
 one engine starting new — any good positions of `D`, any table size or none, every call with its own move order and
 cancellation pattern — in a precise configuration: every reported value above `WinThreshold` is a forced win of the
